@@ -61,6 +61,7 @@ class Ctx:
         self.steps = 0
         self._scratch: Path | None = None
         self.prop_default = ""
+        self.collected: dict = {}  # name -> set of hashable items, merged over all runs by the runner
 
     # -- reporting -----------------------------------------------------------
     def event(self, *item):
@@ -78,6 +79,9 @@ class Ctx:
         self.events.append(("VIOLATION", clause, signature))
         if fatal:
             raise StopRun(clause)
+
+    def collect(self, name: str, item):
+        self.collected.setdefault(name, set()).add(item)
 
     def case(self, key, nontrivial: bool = True):
         self.case_key = key
